@@ -148,3 +148,12 @@ Print Assumptions C04_build_never_out_of_fuel.
 Print Assumptions C04_process_iff_allowed_graph.
 Print Assumptions C04_build_highest_graph.
 Print Assumptions C04_J_on_every_run.
+
+(* ---- the quorum test is a function of the SET of the frame's roots (proofs/AbftRootOrder.v) ---- *)
+From LV Require proofs.AbftRootOrder.
+Theorem C04_quorum_ignores_root_order : forall v, NoDup (v_ids v) -> forall s roots roots' a g,
+  (forall r, In r roots -> v_exists v (r_val r) = true) ->
+  (forall r, In r roots <-> In r roots') ->
+  qp v s roots a g = qp v s roots' a g.
+Proof. exact proofs.AbftRootOrder.qp_same_roots. Qed.
+Print Assumptions C04_quorum_ignores_root_order.
